@@ -694,7 +694,8 @@ func (g *vfG) String(tag vfTag, path string) string {
 		}
 		return s
 	case "globalfilter":
-		return g.pick(path, "gf", "", "gf1", "nope")
+		// gf1: a GlobalFilter; acm1: an existing business controller of another kind; nope: no such object
+		return g.pick(path, "gf", "", "gf1", "nope", "acm1")
 	case "cert":
 		return g.pick(path, "pem", p.CertPEM, "", "garbage")
 	case "certs":
